@@ -2,6 +2,7 @@
 //! (C12: MessageView on arbitrary bytes).  64-bit `usize` is assumed.
 //!
 //! `tlvview`:  `view <hex> <lookups>`
+//!             `viewt <hex> <lookups>`   same oracle, terse observation (digests) for messages with hundreds of pairs
 //!             `viewit <iter|tags> <hex> <script>`  iterator-protocol script (`iterscript.rs`) on `iter()` / `tags().iter()`
 //! `tlv`:      `msg <new|sorted|slice> <cow|str|ref|h> <tag:kind:payload,...|->`
 //!             (kinds: b/o = borrowed/owned bytes, m = message in slot <payload>, v = MessageView of that slot's encoding,
@@ -286,6 +287,48 @@ fn view_iter_script(src: &str, d: &[u8], steps: &[crate::iterscript::Step], scri
     so
 }
 
+/// FNV-1a, 64 bit (the Lean driver computes the same over the same text).
+fn fnv64(bytes: &[u8]) -> u64 {
+    let mut h: u64 = 0xcbf29ce484222325;
+    for b in bytes {
+        h ^= *b as u64;
+        h = h.wrapping_mul(0x100000001b3);
+    }
+    h
+}
+
+/// The terse observation of `viewt` (for messages with hundreds of pairs, where the full `view`
+/// observation is quadratic in N): the `new` line; then count + FNV-1a digest of the `tags` and
+/// `iter` texts of the full observation, `get` / `getv` at a handful of indices, `find` of the lookups.
+fn view_terse(d: &[u8], lookups: &[u32]) -> Vec<String> {
+    let msg = match MessageView::new(Cow::Borrowed(d)) {
+        Err(e) => return vec![format!("new err {}", dec_err_str(&e))],
+        Ok(m) => m,
+    };
+    let n = msg.len();
+    let mut obs = vec![format!("new ok n={} empty={}", n, msg.is_empty() as u8)];
+    let tags_text = nat_list(&msg.tags().iter().map(|t| t.value() as usize).collect::<Vec<_>>());
+    obs.push(format!("tags #{}:{:016x}", msg.tags().len(), fnv64(tags_text.as_bytes())));
+    let it: Vec<String> = msg.iter().map(|(t, v)| pair_str(t, v)).collect();
+    let it_text = if it.is_empty() { "-".to_string() } else { it.join(";") };
+    obs.push(format!("iter #{}:{:016x}", it.len(), fnv64(it_text.as_bytes())));
+    let mut idxs: Vec<usize> = vec![0, n / 2, n.saturating_sub(1), n, n + 1, 4294967296, usize::MAX];
+    idxs.dedup();
+    obs.push(format!(
+        "get {}",
+        idxs.iter()
+            .map(|i| format!("{}={}/{}", i, match msg.get(*i) { None => "none".to_string(), Some((t, v)) => pair_str(t, v) }, opt_hex(msg.get_value(*i))))
+            .collect::<Vec<_>>()
+            .join(" ")
+    ));
+    let finds: Vec<String> = lookups
+        .iter()
+        .map(|w| format!("{}={}/{}", w, match msg.find_tag(*w) { None => "none".to_string(), Some(i) => i.to_string() }, opt_hex(msg.find(*w))))
+        .collect();
+    obs.push(format!("find {}", if finds.is_empty() { "-".to_string() } else { finds.join(" ") }));
+    obs
+}
+
 impl Exec for TlvViewExec {
     fn flush_before(&self, w: &[&str]) -> bool {
         matches!(w, ["viewit", ..])
@@ -302,6 +345,26 @@ impl Exec for TlvViewExec {
                         so
                     }
                 }
+            }
+            ["viewt", hex, lk] => {
+                // same oracle as `view` (every accessor, every index), terse observation
+                let (Some(d), Some(lookups)) = (from_hex(hex), parse_u32_list(lk)) else { return StepOut::bad() };
+                let mut so = StepOut::default();
+                let (_, v, panicked) = view_obs(&d, &lookups, &mut so.tags);
+                so.violations.extend(v);
+                if panicked {
+                    so.obs.push("panic".into());
+                    return so;
+                }
+                match catch_unwind(AssertUnwindSafe(|| view_terse(&d, &lookups))) {
+                    Ok(o) => so.obs = o,
+                    Err(_) => {
+                        so.obs.push("panic".into());
+                        so.violations.push("C12 MessageView panicked on untrusted bytes".into());
+                    }
+                }
+                so.tags.push("viewt".into());
+                so
             }
             ["view", hex, lk] => {
                 let (Some(d), Some(lookups)) = (from_hex(hex), parse_u32_list(lk)) else { return StepOut::bad() };
@@ -392,6 +455,36 @@ fn gen_valid(rng: &mut Rng, n: usize) -> Vec<u8> {
     d
 }
 
+/// `n` pairs with tags `10 + 2j` and one-byte values `j` (offsets 1, 2, ..): everything strictly ascending.
+fn sweep_message(n: usize) -> Vec<u8> {
+    let mut d = Vec::with_capacity(9 * n + 4);
+    d.extend_from_slice(&(n as u32).to_le_bytes());
+    for j in 1..n {
+        d.extend_from_slice(&(j as u32).to_le_bytes());
+    }
+    for j in 0..n {
+        d.extend_from_slice(&(10 + 2 * j as u32).to_le_bytes());
+    }
+    d.extend((0..n).map(|j| j as u8));
+    d
+}
+
+/// `(N, every position?)` of the single-defect sweep of `MessageView::new`.
+fn view_sweep_sizes(thorough: bool) -> Vec<(usize, bool)> {
+    let mut v: Vec<(usize, bool)> = (2..=24).map(|n| (n, true)).collect();
+    v.extend((63..=66).map(|n| (n, true)));
+    v.extend((127..=130).map(|n| (n, true)));
+    if thorough {
+        v.extend((25..=62).map(|n| (n, true)));
+        v.extend((255..=258).map(|n| (n, true)));
+        v.push((300, true));
+        v.extend((511..=514).map(|n| (n, false)));
+    } else {
+        v.extend((256..=257).map(|n| (n, false)));
+    }
+    v
+}
+
 fn put32(d: &mut [u8], word: usize, v: u32) {
     if 4 * word + 4 <= d.len() {
         d[4 * word..4 * word + 4].copy_from_slice(&v.to_le_bytes());
@@ -458,6 +551,57 @@ impl Family for TlvViewFamily {
             // few lookups: the observation is quadratic in N already
             let lk = |x: &[u8]| format!("view {} {},{},0,4294967295", to_hex(x), rd32(x, n), rd32(x, 2 * n - 1));
             cases.push(vec![lk(&d), lk(&over), lk(&cut)]);
+        }
+        // (c') SINGLE-DEFECT SWEEP (track gen3) of the two "all neighbours are ordered" scans of `new`: for N
+        // pairs (values of one byte each, so offsets 1, 2, ... and tags 10, 12, ... are strictly ascending)
+        // exactly one descent at EVERY position of the offsets and of the tags, plus equal neighbours and a
+        // last offset beyond the payload; terse observation (`viewt`).
+        for (n, every) in view_sweep_sizes(thorough) {
+            let base = sweep_message(n);
+            let lookups = format!("{},{},{},11,0,4294967295", 10, 10 + 2 * (n / 2), 10 + 2 * (n - 1));
+            let mut ops: Vec<String> = vec![format!("viewt {} {}", to_hex(&base), lookups)];
+            let positions = |count: usize| -> Vec<usize> {
+                if every {
+                    (0..count).collect()
+                } else {
+                    let mut p: Vec<usize> = vec![0, 1, count / 2, count.saturating_sub(2), count.saturating_sub(1)];
+                    p.extend((1..=count / 32).flat_map(|k| [32 * k - 2, 32 * k - 1, 32 * k, 32 * k + 1]));
+                    p.retain(|i| *i < count);
+                    p.sort_unstable();
+                    p.dedup();
+                    p
+                }
+            };
+            // offsets are words 1..=n-1 (n-1 of them): descents at word pairs (1+i, 2+i)
+            for i in positions(n.saturating_sub(2)) {
+                let mut d = base.clone();
+                let (a, b) = (rd32(&d, 1 + i) as u32, rd32(&d, 2 + i) as u32);
+                put32(&mut d, 1 + i, b);
+                put32(&mut d, 2 + i, a);
+                ops.push(format!("viewt {} {}", to_hex(&d), lookups));
+            }
+            // tags are words n..=2n-1
+            for i in positions(n - 1) {
+                let mut d = base.clone();
+                let (a, b) = (rd32(&d, n + i) as u32, rd32(&d, n + i + 1) as u32);
+                put32(&mut d, n + i, b);
+                put32(&mut d, n + i + 1, a);
+                ops.push(format!("viewt {} {}", to_hex(&d), lookups));
+                if i % 7 == 0 {
+                    // equal neighbours: still sorted
+                    let mut e = base.clone();
+                    put32(&mut e, n + i + 1, a);
+                    ops.push(format!("viewt {} {}", to_hex(&e), lookups));
+                }
+            }
+            if n >= 2 {
+                let mut d = base.clone();
+                put32(&mut d, n - 1, n as u32 + 1);
+                ops.push(format!("viewt {} {}", to_hex(&d), lookups));
+                let cut = base[..base.len() - 1].to_vec();
+                ops.push(format!("viewt {} {}", to_hex(&cut), lookups));
+            }
+            cases.extend(ops.chunks(128).map(|c| c.to_vec()));
         }
         // (d) iterator protocol (track gen3): every script of <= 2 (thorough: 3) non-consuming steps over a
         // small alphabet, alone and followed by each consuming step, on iter() and tags().iter() of messages
